@@ -6,6 +6,7 @@ import (
 	"go/constant"
 	"go/token"
 	"go/types"
+	"sort"
 
 	"golang.org/x/tools/go/ssa"
 )
@@ -165,6 +166,121 @@ func runIndentPair(c *Ctx, r *Reporter) {
 		r.Check(okN, fd.QName()+"#plain-decimal", p.Rel(fd.Decl.Pos()), "number literals are printed with FormatFloat(v, 'f', -1, 64)", "number literals must be printed in plain decimal notation ('f', -1): the lexer does not accept exponents, so any other verb makes formatted programs unparsable")
 	} else {
 		r.Undecided("(*NumLiteral).String not found")
+	}
+	// string literals: the formatter writes StringLiteral.Value only through strconv.Quote
+	var roots []*ssa.Function
+	for _, fd := range Funcs(pkg) {
+		if n := recvNamed(fd.Obj); n != nil && n.Obj().Name() == "formatting" {
+			if sf := p.SSAFunc(fd.Obj); sf != nil {
+				roots = append(roots, sf)
+			}
+		}
+	}
+	seenFn := map[*ssa.Function]bool{}
+	for len(roots) > 0 {
+		fn := roots[len(roots)-1]
+		roots = roots[:len(roots)-1]
+		if seenFn[fn] || fn.Pkg == nil || fn.Pkg.Pkg != pkg.Types {
+			continue
+		}
+		seenFn[fn] = true
+		for _, b := range fn.Blocks {
+			for _, ins := range b.Instrs {
+				if ci, ok := ins.(ssa.CallInstruction); ok {
+					if sc := ci.Common().StaticCallee(); sc != nil {
+						roots = append(roots, sc)
+					}
+				}
+			}
+		}
+	}
+	nq := 0
+	var quotedOnly func(v ssa.Value, depth int) string
+	quotedOnly = func(v ssa.Value, depth int) string {
+		if depth > 4 {
+			return "flows too far to follow"
+		}
+		refs := v.Referrers()
+		if refs == nil {
+			return ""
+		}
+		for _, ref := range *refs {
+			switch x := ref.(type) {
+			case *ssa.DebugRef:
+			case *ssa.Call:
+				sc := x.Call.StaticCallee()
+				if sc == nil {
+					return "is passed to a dynamic call"
+				}
+				name := pkgFuncName(sc)
+				if name == "strconv.Quote" {
+					continue
+				}
+				if sc.Pkg != nil && sc.Pkg.Pkg == pkg.Types && len(sc.Blocks) > 0 {
+					for i, a := range x.Call.Args {
+						if a == v && i < len(sc.Params) {
+							if why := quotedOnly(sc.Params[i], depth+1); why != "" {
+								return "is passed to " + sc.Name() + ", where it " + why
+							}
+						}
+					}
+					continue
+				}
+				// library predicates (strings.ContainsAny, utf8.ValidString, len …) do not write anything
+				if res := sc.Signature.Results(); res.Len() == 1 {
+					if bt, ok := res.At(0).Type().Underlying().(*types.Basic); ok && bt.Info()&(types.IsBoolean|types.IsInteger) != 0 {
+						continue
+					}
+				}
+				return "is passed to " + name
+			case *ssa.BinOp:
+				if x.Op == token.EQL || x.Op == token.NEQ {
+					continue
+				}
+				return "is concatenated or compared by " + x.Op.String()
+			case *ssa.Return:
+				return "is returned unquoted"
+			case *ssa.Phi:
+				if why := quotedOnly(x, depth+1); why != "" {
+					return why
+				}
+			case *ssa.Range, *ssa.Index, *ssa.Lookup:
+				continue
+			default:
+				return "is used by " + ref.String()
+			}
+		}
+		return ""
+	}
+	var fnList []*ssa.Function
+	for fn := range seenFn {
+		fnList = append(fnList, fn)
+	}
+	sort.Slice(fnList, func(i, j int) bool { return ssaQName(fnList[i]) < ssaQName(fnList[j]) })
+	for _, fn := range fnList {
+		for _, b := range fn.Blocks {
+			for _, ins := range b.Instrs {
+				u, ok := ins.(*ssa.UnOp)
+				if !ok || u.Op != token.MUL {
+					continue
+				}
+				fa, ok := u.X.(*ssa.FieldAddr)
+				if !ok {
+					continue
+				}
+				named, field := fieldAddrInfo(fa)
+				if named == nil || named.Obj().Name() != "StringLiteral" || field != "Value" {
+					continue
+				}
+				nq++
+				why := quotedOnly(u, 0)
+				r.Check(why == "", fmt.Sprintf("%s#string-literal-quoted[%d]", ssaQName(fn), nq), p.Rel(instrPos(u)), "the value of a string literal reaches the output only through strconv.Quote",
+					"the formatter uses StringLiteral.Value in a way that "+why+": text written without strconv.Quote is re-lexed differently (invalid UTF-8 becomes U+FFFD, quotes and escapes change the token)")
+			}
+		}
+	}
+	if nq == 0 {
+		r.Undecided("no read of StringLiteral.Value found in the formatter")
 	}
 }
 
